@@ -63,6 +63,7 @@ class RunCtx(object):
         self.returns = []           # (seq, call_id, label) of API calls that returned
         self.extractors = {}        # class -> fn (what the run registered)
         self.extractor_raises = set()
+        self.extractor_flaky = set()
         self.async_mode = False
         self.aborted = False
         self.skipped = None
@@ -114,6 +115,7 @@ class RunCtx(object):
     # ----------------------------------------------------------- extractors
     def register_extractor(self, cls, fn, raises=False):
         self.extractors[cls] = fn
+        self.extractor_flaky.discard(cls)
         if raises:
             self.extractor_raises.add(cls)
         else:
@@ -137,6 +139,16 @@ class RunCtx(object):
                     return {"xcls": cname, "reason": "the extractor's own reason", "exception": "not.the.Class",
                             "action_status": "succeeded"}
                 self.register_extractor(cls, fn)
+            elif mode == "flaky":
+                # an extractor that fails for some exceptions of its class and works for others (it reads an
+                # attribute only some instances have): decided by the exception's text, so the model knows
+                def fn(e, cname=cname):
+                    if flaky_raises(e):
+                        self.count_fault("extr_raise_flaky")
+                        raise ExtractorBoom("extractor for %s failed" % cname)
+                    return {"xcls": cname, "xlen": len(exc_text(e))}
+                self.register_extractor(cls, fn)
+                self.extractor_flaky.add(cls)
             elif mode == "cross":
                 # fails with an exception of a class that ANOTHER failing extractor is registered for (a ring):
                 # reporting one extractor's failure must not consult the extractors again
@@ -170,6 +182,11 @@ class RunCtx(object):
         """The exception the nearest extractor raises for ``ex``, or None."""
         from .driver import ExtractorBoom
         k = self.nearest_extractor(ex)
+        if k is not None and k in self.extractor_flaky and k in self.extractors:
+            if flaky_raises(ex):
+                name = [n for n, c in EXC_CLASSES.items() if c is k][0]
+                return ExtractorBoom("extractor for %s failed" % name)
+            return None
         if k is not None and k in self.extractor_raises:
             name = [n for n, c in EXC_CLASSES.items() if c is k][0]
             return ExtractorBoom("extractor for %s failed" % name)
@@ -180,7 +197,7 @@ class RunCtx(object):
         (eliot registers one for EnvironmentError itself)."""
         for klass in type(ex).__mro__:
             if klass in self.extractors:
-                if klass in self.extractor_raises:
+                if klass in self.extractor_raises or (klass in self.extractor_flaky and flaky_raises(ex)):
                     return {}
                 try:
                     return dict(self.extractors[klass](ex))
@@ -189,6 +206,13 @@ class RunCtx(object):
             if klass is EnvironmentError:
                 return {"errno": ex.errno}
         return {}
+
+
+def flaky_raises(ex):
+    try:
+        return sum(ord(c) for c in exc_text(ex)) % 2 == 1
+    except BaseException:  # noqa
+        return False
 
 
 # -------------------------------------------------------------- destinations
